@@ -164,6 +164,33 @@ CLAIMS = {
          "recorded from the real libraries in the runs. Not modelled: TLS, proxies, unix URLs. Known findings: origin not checked "
          "for draft versions 11/12; linebreak-in-value (server and client).",
          "Coq proof (chain = conjunction, parse-render, list induction, finite sweeps in Coq) + differential correspondence + generated tables"),
+ "C04": ("5 C04",
+         "Coq invariants over ALL op histories of an executable model of ApplicationSession's request side (six pending tables, "
+         "id generator, ghost ledger of futures; Twisted and asyncio continuation flavours): request ids sequential 1..2^53 over "
+         "any trace, exactly one request message per API call with the given URI/args/options, every future completes at most "
+         "once and only with the reply bearing its (type, id) or that reply's error, no cross-completion (table disjointness), "
+         "progressive results local to their call, unmatched reply = ProtocolError, only ProtocolError ever leaves onMessage. "
+         "Message type codes and id bounds regenerated from the source. Differential run: generated histories (six request kinds, "
+         "replies success/error/progressive/duplicated/unknown/wrong-type in adversarial orders, events and invocations "
+         "interleaved) on the real session under both frameworks vs the model + an oracle from the property text.",
+         "Trusted: Coq kernel; hand-written model tied by differential runs; txaio continuation semantics, dict order, URI "
+         "validation, payload codec and exception-class lookup are mirrored/abstract; the transport is a fake ITransport. "
+         "Known finding: duplicate registration id -> future never completes.",
+         "Coq invariants + trace monitors over a Gallina state machine; differential histories on virtual time"),
+ "C06": ("5 C06",
+         "Coq theorems over all op histories of the same session model: Twisted flavour - callback and GOODBYE traces are words of "
+         "the life-cycle automaton (connect <= join <= leave <= disconnect, each at most once), leave iff a joined session ends or "
+         "the router aborts, GOODBYE at most once; both flavours - phase gate, GOODBYE answered iff not initiated, nothing "
+         "pending after the session ends (every table empty, every future completed or accounted), API calls after the end "
+         "raise; asyncio - the life cycle equals Twisted's whenever the loop settles between events (proved), and the unsettled "
+         "schedules are refuted with witnesses (known findings). Differential run: router conversations + one illegal message "
+         "at every position, local leave/disconnect, raising callbacks, transport loss at every position, table populations, "
+         "three asyncio turn spacings, on the real session.",
+         "Partial for asyncio: ordering/goodbye-once hold only for settled schedules. Trusted: as C04; one transport connection "
+         "per session object, no re-entrant API calls from callbacks; an asyncio loop iteration is modelled as _run_once. Known "
+         "findings: phase gate after the end, asyncio deferred continuation (6 keys), pending future on duplicate registration, "
+         "API after end on a closing transport.",
+         "Coq invariants + life-cycle automaton refinement; differential histories with fault injection at every position"),
 }
 NOT_YET = {}
 
